@@ -23,7 +23,7 @@ FACT_LEMMAS = []
 ASSUMPTIONS = ["Layer P models CPython's operators (pysem)", "json.dumps / json.loads text is outside the model (real JSON text is used by the harness)"]
 
 PATHY = [{"path": 1}, {"path": ["a"]}, {"path.first": ["a", 0]}, {"xpath": True}, {"a": {"path": [1]}}, [{"path": ["a"]}, 2],
-         {"path": ["a"], "b": 1}, [[{"path": 1}]], {"a": [{"path": 1}]}, {"\\path": 1}]
+         {"path": ["a"], "b": 1}, [[{"path": 1}]], {"a": [{"path": 1}]}, {"\\path": 1}, {"PATH": []}, {"Path.len": ["a"]}, [{"PATH": [1]}]]
 
 
 def jsonable(a):
@@ -95,6 +95,8 @@ def run(tier, seed, model_ok, spec_ok, replay=None):
                 l.args[g.r.randrange(len(l.args))] = normalise_path(limit_parts(pg.path(doc, max_len=2, mods_p=0.4)))
             elif l.args and k < 0.22 and l.method in ("equal_to", "not_equal_to", "in_", "not_in", "eq") and "DataType" not in l.cls:
                 l.args[0] = copy.deepcopy(g.r.choice(PATHY))
+            if l.method == "items_contain" and g.r.random() < 0.3:
+                l.kwargs[g.r.choice(["path", "xpath", "path.len", "a"])] = g.scalar() if g.r.random() < 0.5 else [1]
             if not all(jsonable(a) for a in list(l.args) + list(l.kwargs.values())):
                 ok = False
         for l in nested_leaves(t):
@@ -109,6 +111,18 @@ def run(tier, seed, model_ok, spec_ok, replay=None):
         except Exception:
             continue
         probes = [g.container(2, 4, "list"), g.container(2, 4, "dict")]
+        flags = []
+
+        def pathy_upper(v):
+            if isinstance(v, dict):
+                ks = list(v.keys())
+                return len(ks) == 1 and isinstance(ks[0], str) and ks[0].split(".")[0].lower() == "path" and ks[0].split(".")[0] != "path"
+            return False
+        for l in t.leaves():
+            for a in list(l.args) + list(l.kwargs.values()):
+                if pathy_upper(a) or (isinstance(a, list) and any(pathy_upper(x) for x in a)) or \
+                        (isinstance(a, dict) and any(pathy_upper(x) for x in a.values())):
+                    flags.append("mapping-key-path-not-lowercase")
         out_js = E.run_outcome(lambda: t.build().to_json_like())
         out_rt = E.run_outcome(lambda: impl_roundtrip(t, probes)[1][:3])
         try:
@@ -121,15 +135,16 @@ def run(tier, seed, model_ok, spec_ok, replay=None):
                       f"(run_cond_roundtrip {tc})", None, E.enc_res(out_rt, Inert0()), out_rt, False, key=t.descr() + "#rt")
         except E.Unencodable:
             continue
-        cases += [c1, c2]
+        # a data path nested inside a list literal (which the known-finding inputs rebuild to) is outside the serialiser model
+        cases += [c1] if flags else [c1, c2]
         full = E.run_outcome(lambda: impl_roundtrip(t, probes))
         dist["ok" if full[0] == "ok" else "exc:" + full[1]] += 1
         if full[0] != "ok":
-            direct.append({"kind": "direct", "what": f"round trip raised {full[1]}", "term": t.descr()[:400]})
+            direct.append({"kind": "direct", "flags": flags, "what": f"round trip raised {full[1]}", "term": t.descr()[:400]})
         elif not all(full[1][1]):
             names = ["json-stable", "rebuilt == original", "second serialisation identical", "same behaviour"]
             bad = [nm for nm, okk in zip(names, full[1][1]) if not okk]
-            direct.append({"kind": "direct", "what": "round trip fails: " + ", ".join(bad), "term": t.descr()[:400],
+            direct.append({"kind": "direct", "flags": flags, "what": "round trip fails: " + ", ".join(bad), "term": t.descr()[:400],
                            "json": repr(full[1][0])[:300]})
     k_bad, o_bad, nk, no, err = run_passes("c11", IMPORTS, cases, model_ok, spec_ok)
     res = {"evaluations": len(cases), "k_cases": nk, "o_cases": len(cases) // 2,
@@ -146,4 +161,5 @@ def run(tier, seed, model_ok, spec_ok, replay=None):
 
 
 def matches_known(known, case):
-    return False
+    m = known.get("match", {})
+    return "flag" in m and m["flag"] in case.get("flags", [])
